@@ -74,13 +74,10 @@ AdjustLower ==
   /\ pc' = "adjust_upper"
   /\ UNCHANGED <<sh, inp, out>>
 
-\* two-sided: gen_adjust_x_for_upper_boundary(&lower)  <- receives the LOWER boundary (arbitrary.rs:130)
-\* one-sided upper: gen_adjust_x_for_upper_boundary(&upper)
+\* gen_adjust_x_for_upper_boundary(&upper)   (two-sided: fix d7795c5; it used to receive the lower boundary)
 AdjustUpper ==
   /\ pc = "adjust_upper"
-  /\ x' = IF TwoSided(sh)
-          THEN (IF sh.lk = "greater" /\ x.k = "num" /\ x.v >= Lo THEN Add(x, -Delta(sh)) ELSE x)
-          ELSE IF sh.uk = "less" /\ sh.lk = "none" /\ x.k = "num" /\ x.v >= Up THEN Add(x, -Delta(sh)) ELSE x
+  /\ x' = IF sh.uk = "less" /\ x.k = "num" /\ x.v >= Up THEN Add(x, -Delta(sh)) ELSE x
   /\ pc' = "construct"
   /\ UNCHANGED <<sh, inp, out>>
 
@@ -102,8 +99,6 @@ FSpec == FInit /\ [][Scale \/ AdjustLower \/ AdjustUpper \/ Construct]_fvars
 
 \* candidates (DESIGN.md section 7, #3 and #4)
 KnownF(s) ==
-  \/ (TwoSided(s) /\ s.lk = "greater")                         \* #3: the upper adjust gets the lower boundary
-  \/ (TwoSided(s) /\ s.uk = "less")                            \* #3: and so an exclusive upper bound is never adjusted
   \/ (s.absorbed /\ (s.lk = "greater" \/ s.uk = "less"))       \* #4: fixed delta absorbed at this magnitude
   \/ s.overflow                                                \* #4: upper - lower overflows
   \/ (s.finite /\ s.overflow /\ s.lk # "none" /\ ~TwoSided(s))  \* #4: MAX + huge bound = inf under `finite`
